@@ -35,7 +35,7 @@ Definition live_true (rs : rstate) (n : Z) : Prop :=
 
 (* the memory encodes the tree (na, D) *)
 Record Shape (rs : rstate) (na : Z -> Z -> Z) (D : Z -> Z -> bool) : Prop := {
-  sh_depth : 0 <= rdepth rs;
+  sh_depth : 0 <= rdepth rs <= 4;            (* five levels address every positive int *)
   sh_root : mget (mem rs) ROOT_CELL = CNode (na (rdepth rs) 0);
   sh_rootD : D (rdepth rs) 0 = true;
   sh_first : na 0 0 = FIRST_LEAF;
@@ -74,16 +74,20 @@ Record Rel (rs : rstate) (s : tstate) (na : Z -> Z -> Z) (H : Z) : Prop := {
   r_vac : forall i, H < i -> sget s i = None;
 }.
 
+(* the verified range of populations: below it no int computation of iv_timer.c leaves the
+   range of int (2 * index in push_down needs index < 2^30; ++num_timers needs num_timers < INT_MAX) *)
+Definition POP_BOUND : Z := 2 ^ 30.
+
 (* the invariant of the radix-tree store, as the C code maintains it between operations *)
 Definition RInv (rs : rstate) : Prop :=
-  exists na H, ShapeH rs na H /\ 0 <= rnum rs <= H /\
+  exists na H, ShapeH rs na H /\ 0 <= rnum rs <= H /\ H < POP_BOUND /\
     (* the depth is minimal: a level is added when index reaches 128^(depth+1),
        removed when num_timers == 128^depth is about to be decremented *)
     (0 < rdepth rs -> P (rdepth rs) <= rnum rs).
 
 (* the flat-map state implemented by rs *)
 Definition Refines (rs : rstate) (s : tstate) : Prop :=
-  exists na H, ShapeH rs na H /\ Rel rs s na H /\ num s <= H.
+  exists na H, ShapeH rs na H /\ Rel rs s na H /\ num s <= H /\ H < POP_BOUND.
 
 (* nothing calloc'ed is live *)
 Definition all_freed (rs : rstate) : Prop := forall n, ~ live_true rs n.
@@ -132,6 +136,12 @@ Inductive reach (rs : rstate) : Z -> Z -> Prop :=
 | reach_child : forall l n j k, reach rs l n -> 1 <= l -> 0 <= j < NODES ->
     mget (mem rs) (n * NODES + j) = CNode k -> reach rs (l - 1) k.
 
-(* the shift count of `index >> ((st->rat_depth + 1) * IV_TIMER_SPLIT_BITS)` in iv_timer_get_node;
-   C leaves a shift of a 32-bit int by >= 32 undefined *)
-Definition shift_count (rs : rstate) : Z := (rdepth rs + 1) * SPLIT_BITS.
+(* every timer id used by a history (top-level operations and handler scripts) is below b *)
+Definition act_id (a : act) : id := match a with AReg t _ => t | AUnreg t => t end.
+Definition acts_below (b : Z) (l : list act) : Prop := forall a, In a l -> Zpos (act_id a) < b.
+Definition scripts_below (b : Z) (sc : scripts) : Prop := forall t, acts_below b (sc t).
+Definition ops_below (b : Z) (ops : list op) : Prop :=
+  forall o, In o ops -> match o with OAct a => Zpos (act_id a) < b | ORun _ => True end.
+
+(* the registered timers have ids below b *)
+Definition RegBelow (b : Z) (s : tstate) : Prop := forall t, 1 <= tidx s t -> Zpos t < b.
